@@ -478,6 +478,8 @@ func blockContainerLayout(context *layoutContext, box_ Box, bottomSpace pr.Float
 	}
 
 	if bi := string(box.Style.GetBreakInside()); boxIsFragmented && avoidPageBreak(bi, context) && !pageIsEmpty {
+		// the whole box moves to the next page: nothing of it stays on this one
+		removePlaceholders(context, append(append([]Box{}, newChildren...), box.Children[skip:]...), absoluteBoxes, fixedBoxes)
 		for _, footnote := range allFootnotes {
 			context.unlayoutFootnote(footnote)
 		}
